@@ -39,6 +39,31 @@ func (fc *FnCtx) lockTarget(st *State, call *ast.CallExpr) *monInfo {
 	var ownerExpr ast.Expr
 	var fieldIdx int
 	path := s.Index()
+	if id, ok := ast.Unparen(sel.X).(*ast.Ident); ok && fc.contract != nil && fc.contract.LockIs != nil && fc.inlineOld == nil {
+		// `lockis mu X.f`: the mutex parameter mu is the mutex field f of X (an obligation at every call site,
+		// stated as the precondition mu == X.f which the contract must contain)
+		if e, ok := fc.contract.LockIs[id.Name]; ok {
+			env := fc.newSpecEnv(st, fc.oldState(), fc.decl.Body.Rbrace)
+			fc.bindParamsOld(env)
+			base := env.eval(e.Args[0])
+			sT, owner, isPtr := structOf(base.Ty)
+			if sT == nil || !isPtr {
+				fc.fail(call.Pos(), "lockis: %s is not a pointer to struct", e.Args[0].Name)
+			}
+			mi := &monInfo{owner: owner, field: e.Name, base: base}
+			if n, ok := owner.(*types.Named); ok {
+				if cs := fc.eng.contractsForPkg(n.Obj().Pkg()); cs != nil {
+					mi.cs = cs
+					for _, m := range cs.Monitors {
+						if m.Type == n.Obj().Name() && m.MuField == mi.field {
+							mi.mon = m
+						}
+					}
+				}
+			}
+			return mi
+		}
+	}
 	if len(path) == 2 {
 		ownerExpr, fieldIdx = sel.X, path[0]
 	} else if len(path) == 1 {
@@ -183,6 +208,14 @@ func (fc *FnCtx) builtinExtern(st *State, callee *types.Func, recv *Val, args []
 		fc.checkBlocking(st, mi, call)
 		fc.heldSet(st, addr, mode)
 		fc.acquire(st, mi)
+		if fc.contract != nil && len(fc.contract.AtLock) > 0 && fc.inlineOld == nil && mi != nil && mi.mon != nil {
+			env := fc.newSpecEnv(st, fc.oldState(), fc.decl.Body.Rbrace)
+			fc.bindParamsOld(env)
+			for _, c := range fc.contract.AtLock {
+				fc.assume(st, env.evalBool(c.E))
+				fc.externsUsed["assumed at Lock in "+fc.fn.Name()+" (the caller's own earlier operations guarantee it): "+c.Text] = true
+			}
+		}
 		st.csSnap = nil
 		st.csSnap = st.clone()
 		if mode == "2" && mi != nil {
@@ -275,6 +308,7 @@ func (fc *FnCtx) doUnlock(st *State, full, addr string, mi *monInfo, pos token.P
 	if mi != nil && mi.mon != nil {
 		fc.assert(st, app("=", fc.heldGet(st, addr), want), "lock-held", "mutex is held in the matching mode at unlock", pos)
 		fc.ghostUpdatesAtRelease(st)
+		fc.checkAtUnlock(st, pos)
 	}
 	if want == "2" && mi != nil {
 		// a read section must leave the guarded state unchanged
@@ -342,7 +376,35 @@ func (fc *FnCtx) checkGuard(st *State, owner types.Type, field, base string, isW
 			continue
 		}
 		if g.MuType != g.Type {
-			continue // guarded by a mutex of another object: checked through requires held(...)
+			if g.Via == "" {
+				continue // guarded by a mutex of another object: checked through requires held(...)
+			}
+			// guarded by the mutex of the object the ghost field `via` points to
+			mt := fc.resolveType(g.MuType, n.Obj().Pkg())
+			ms, ok := mt.Underlying().(*types.Struct)
+			if !ok {
+				fc.fail(pos, "guarded via: %s is not a struct", g.MuType)
+			}
+			midx := fieldIndex(mt, g.MuField)
+			if midx < 0 {
+				fc.fail(pos, "guarded: no mutex field %s in %s", g.MuField, g.MuType)
+			}
+			_ = ms
+			key := fc.fieldKey(owner, g.Via)
+			ownerRef := app("select", fc.heapGet(st, key, "(Array Int Int)"), base)
+			addr := fc.muFieldAddr(st, Val{T: ownerRef, Ty: types.NewPointer(mt)}, mt, midx)
+			h := fc.heldGet(st, addr)
+			goal := not(app("=", h, "0"))
+			if isWrite {
+				goal = app("=", h, "1")
+			}
+			fresh := app(">", base, fc.heapGet(fc.entry, "$alloc", "Int"))
+			what := "read"
+			if isWrite {
+				what = "write"
+			}
+			fc.assertNamed(st, or(goal, fresh), "lock-held", "", fmt.Sprintf("%s of %s.%s happens with %s.%s of its %s held", what, g.Type, field, g.MuType, g.MuField, g.Via), pos)
+			continue
 		}
 		s := owner.Underlying().(*types.Struct)
 		idx := -1
@@ -676,4 +738,72 @@ func (fc *FnCtx) checkFrameRange(st *State, s Val, n string, pos token.Pos) {
 		alts = append(alts, c)
 	}
 	fc.assertNamed(st, or(alts...), "frame", "", "the range written by copy is covered by the modifies clause", pos)
+}
+
+// checkAtUnlock asserts the contract's `atunlock` clauses: the action specification of the function's critical
+// sections. old() denotes the state at the start of the critical section being closed (the function's entry
+// state when the caller acquired the lock).
+func (fc *FnCtx) checkAtUnlock(st *State, pos token.Pos) {
+	if fc.contract == nil || len(fc.contract.AtUnlock) == 0 || fc.inlineOld != nil {
+		return
+	}
+	old := st.csSnap
+	if old == nil {
+		old = fc.entry
+	}
+	env := fc.newSpecEnv(st, old, fc.decl.Body.Rbrace)
+	fc.bindParamsOld(env)
+	for i, c := range fc.contract.AtUnlock {
+		label := c.Label
+		if label == "" {
+			label = fmt.Sprint(i + 1)
+		}
+		fc.assertNamed(st, env.evalBool(c.E), "atunlock", label, "action of the critical section: "+c.Text, pos)
+	}
+}
+
+// ghostUpdatesAfterCall performs the contract's `aftercall callee lhs = e` ghost assignments; `result` denotes
+// the call's (first) result. lhs is a ghost variable or a ghost field of `result`.
+func (fc *FnCtx) ghostUpdatesAfterCall(st *State, callee string, results []Val) {
+	if fc.contract == nil || fc.contract.AfterCall == nil || fc.inlineOld != nil {
+		return
+	}
+	ups := fc.contract.AfterCall[callee]
+	if len(ups) == 0 {
+		return
+	}
+	env := fc.newSpecEnv(st, fc.oldState(), fc.decl.Body.Rbrace)
+	fc.bindParamsOld(env)
+	if len(results) > 0 {
+		env.bound["result"] = results[0]
+	}
+	for _, g := range ups {
+		lhs, err := ParseSpec(g.Name)
+		if err != nil {
+			fc.fail(token.NoPos, "aftercall: %v", err)
+		}
+		switch lhs.Kind {
+		case SField:
+			base := env.eval(lhs.Args[0])
+			_, owner, isPtr := structOf(base.Ty)
+			gt, ok := env.ghostField(owner, lhs.Name)
+			if !ok || !isPtr {
+				fc.fail(token.NoPos, "aftercall: %s is not a ghost field of a pointer", g.Name)
+			}
+			v := fc.assignConvSpec(env.eval(g.E), gt)
+			key := fc.fieldKey(owner, lhs.Name)
+			sort := fmt.Sprintf("(Array Int %s)", fc.sortOf(gt))
+			fc.heapSet(st, key, sort, app("store", fc.heapGet(st, key, sort), base.T, v.T))
+		case SIdent:
+			ty, ok := fc.cs.Ghosts[lhs.Name]
+			if !ok {
+				fc.fail(token.NoPos, "aftercall: unknown ghost %s", lhs.Name)
+			}
+			t := fc.resolveType(ty, fc.pkg.Types)
+			v := fc.assignConvSpec(env.eval(g.E), t)
+			fc.heapSet(st, "ghost$"+lhs.Name, fc.sortOf(t), v.T)
+		default:
+			fc.fail(token.NoPos, "aftercall: bad left-hand side %s", g.Name)
+		}
+	}
 }
